@@ -36,17 +36,30 @@ def run(prop, tier, seed, nshards, binary, replay, rsmon=None, run_shards=None, 
         merged = merge_reports([rep])
         return merged, 0, problems
     ctx = multiprocessing.get_context("fork")
-    with ctx.Pool(nshards) as pool:
-        if prop == "C17":
+    if prop == "C17":
+        with ctx.Pool(nshards) as pool:
             try:
                 reports = [c17.run(tier, seed, binary, pool)]
             except CInconclusive as e:
                 reports = [{"_crashed": True, "_stderr": str(e), "_cmd": ["c17"]}]
-        else:
-            mod = WORKERS[prop]
-            extra = (rsmon,) if prop == "C12" else ()
-            jobs = [(mod.worker, (i, nshards, tier, seed, binary) + extra) for i in range(nshards)]
-            reports = pool.map(_safe, jobs)
+    else:
+        # a worker that dies (out of memory, signal) must end the run as inconclusive, not hang it: unlike Pool,
+        # ProcessPoolExecutor notices
+        from concurrent.futures import ProcessPoolExecutor
+        from concurrent.futures.process import BrokenProcessPool
+        mod = WORKERS[prop]
+        extra = (rsmon,) if prop == "C12" else ()
+        jobs = [(mod.worker, (i, nshards, tier, seed, binary) + extra) for i in range(nshards)]
+        reports = []
+        with ProcessPoolExecutor(max_workers=nshards, mp_context=ctx) as ex:
+            futs = [ex.submit(_safe, j) for j in jobs]
+            for i, f in enumerate(futs):
+                try:
+                    reports.append(f.result())
+                except BrokenProcessPool:
+                    reports.append({"_crashed": True, "_stderr": "a checker process died (killed or out of memory)", "_cmd": [prop, str(i)]})
+                except Exception as e:
+                    reports.append({"_crashed": True, "_stderr": f"checker process failed: {e}", "_cmd": [prop, str(i)]})
     hashes = set()
     extra_distinct = 0
     for i, r in enumerate(reports):
